@@ -93,6 +93,9 @@ fn statements() {
         // surrounding / inner white space is part of the lexical form, whatever the datatype
         lit(" 7", &format!("{}integer", xs)), lit("7 ", &format!("{}integer", xs)), lit("\t7\n", &format!("{}integer", xs)), lit(" ", "x:d"), lit("\u{a0}7\u{2028}", "x:d"),
         lit(" x ", &format!("{}string", xs)), lang(" x ", "en"),
+        // IRIs are opaque: dot segments, empty segments, percent-escapes, case are kept as written
+        iri("http://example.org/doc/../b"), iri("http://example.org/doc/./b"), iri("http://example.org/b"), iri("http://example.org/doc/sub/.."), iri("http://example.org//a/%7Eb"), iri("http://example.org/a/~b"), iri("HTTP://EXAMPLE.org/A"),
+        lit("x", "http://example.org/dt/../string"),
         // blank node labels over the whole PN_CHARS repertoire (middle dot, combining mark, undertie, currency sign,
         // leading digit, non-BMP letter); pairs that a lossy writer would merge
         bn("a\u{b7}b"), bn("a_b"), bn("e\u{301}"), bn("x\u{203f}y"), bn("1\u{20ac}"), bn("\u{10400}z"), bn("a.b.c"),
@@ -101,8 +104,8 @@ fn statements() {
     let q2 = SimpleTerm::Triple(Box::new([q1.clone(), iri("x:p"), lang("x", "en")]));
     objs.push(q1.clone());
     objs.push(q2.clone());
-    let subjs: Vec<T> = vec![iri("http://example.org/s"), bn("b2"), q1.clone(), q2.clone(), bn("s\u{b7}1\u{203f}")];
-    let graphs: Vec<Option<T>> = vec![None, Some(iri("http://example.org/g")), Some(bn("g1")), Some(bn("g\u{b7}\u{301}"))];
+    let subjs: Vec<T> = vec![iri("http://example.org/s"), bn("b2"), q1.clone(), q2.clone(), bn("s\u{b7}1\u{203f}"), iri("http://example.org/x/../s")];
+    let graphs: Vec<Option<T>> = vec![None, Some(iri("http://example.org/g")), Some(bn("g1")), Some(bn("g\u{b7}\u{301}")), Some(iri("http://example.org/x/./g"))];
     let mut n = 0;
     for s in &subjs { for o in &objs { for g in &graphs {
         n += 1;
